@@ -5,7 +5,7 @@ capacity, or recurses); Safe = no overflow, no unbounded recursion.  Binding R: 
 concretised by the independent encoder (uncompressed metadata, arbitrary field values) and fed to the ASan
 builds of rdsquashfs (-l -d -s -c -x -u), sqfs2tar and sqfsdiff under a time-out; the observed outcome must
 never be a signal, a sanitizer report or a time-out.  Seeded bit flips of real (compressed) images on top."""
-import json, os, random, shutil, struct, subprocess, sys
+import json, os, random, re, shutil, struct, subprocess, sys
 from concurrent.futures import ThreadPoolExecutor
 import vlib, build, bpbind, sqfsimg
 from vlib import VERIF, Evidence, Reporter, run_tlc, write_cfg, scratch, SEED, sh
@@ -164,6 +164,156 @@ def observe(tools, img, outdir):
     return res
 
 
+def table_images(work):
+    """one image per class of spec/TableLoad.tla and per table: the step of the loader that fails"""
+    okplan = {k: "ok" for k in ["super_block_size", "super_id_count", "table_start", "meta_hdr_size", "inode_type", "dir_count", "dir_size", "name_size",
+                                "entry_ref", "blk_word", "blk_count", "frag_idx", "frag_off", "xattr_idx", "id_idx", "slink_size", "xattr_table"]}
+    root, so = base_tree(okplan)
+    raw, info = sqfsimg.encode(root, {"frag": True, "block_size": BS, "pad": 0})
+    sup = info["super"]
+    # the same tree without xattrs and without fragments (class "none")
+    root2, _ = base_tree(okplan)
+    root2["children"][0].pop("xattrs")
+    raw_nox, _ = sqfsimg.encode(root2, {"frag": True, "block_size": BS, "pad": 0})
+    raw_nofrag, _ = sqfsimg.encode(root, {"frag": False, "block_size": BS, "pad": 0})
+    SUPOFF = {"id": 48, "xattr": 56, "frag": 80}
+    imgs = {}
+
+    def put(kind, cls, data):
+        p = "%s/tl_%s_%s.sqfs" % (work, kind, cls)
+        open(p, "wb").write(bytes(data))
+        imgs.setdefault(kind, {})[cls] = p
+
+    for kind, tbl in (("xattr", "xattr"), ("idtable", "id"), ("fragtable", "frag"), ("datareader", "frag")):
+        start = sup[tbl + "_tbl"]
+        listoff = start + (16 if tbl == "xattr" else 0)
+        loc0 = struct.unpack_from("<Q", raw, listoff)[0]
+        put(kind, "ok", raw)
+        if kind == "xattr":
+            put(kind, "none", raw_nox)
+        elif kind != "idtable":
+            put(kind, "none", raw_nofrag)
+        b = bytearray(raw)
+        struct.pack_into("<Q", b, SUPOFF[tbl], len(raw) + 1000)
+        put(kind, "start_oob", b)
+        if kind == "xattr":
+            b = bytearray(raw[:start + 6])                    # the 16 byte header of the id table is cut
+            struct.pack_into("<Q", b, 40, len(b))
+            put(kind, "hdr_cut", b)
+            b = bytearray(raw[:listoff + 4])                  # header complete, location list cut
+            struct.pack_into("<Q", b, 40, len(b))
+            put(kind, "list_cut", b)
+        elif kind == "idtable":
+            b = bytearray(raw)
+            struct.pack_into("<H", b, 26, 60000)              # id count: 30 blocks, the location list runs off the file
+            assert start + 8 * 30 > len(raw)
+            put(kind, "list_cut", b)
+        else:
+            b = bytearray(raw)
+            struct.pack_into("<I", b, 16, 70000)              # fragment count: 137 blocks, the location list runs off the file
+            assert start + 8 * 137 > len(raw)
+            put(kind, "list_cut", b)
+        b = bytearray(raw)
+        struct.pack_into("<Q", b, listoff, len(raw) + 1000)
+        put(kind, "entry_oob", b)
+        if kind != "xattr":
+            b = bytearray(raw)
+            struct.pack_into("<H", b, loc0, 0x8000 | 9000)    # the metadata block claims more than 8 KiB
+            put(kind, "block_bad", b)
+    return imgs
+
+
+def table_load_stage(work, rep, ev, tier, cfg, tools=None):
+    """spec/TableLoad.tla: loads of good and hostile images into ONE reader object, queries in between, destructor.
+    R: every program TLC emits on the real xattr reader / id table / fragment table / data reader (ASan + LSan)."""
+    kinds = ["xattr", "idtable", "fragtable", "datareader"]
+    MO = 3 if tier == "quick" else 4
+    base = {"MaxOps": MO, "Emit": False, "FailKeepsPointer": False, "ReloadSkipsCleanup": False, "QueryChecksLoaded": True}
+    progs = {}
+    for k in kinds:
+        write_cfg(cfg, spec="Spec", constants=dict(base, Kind='"%s"' % k), invariants=["MemorySafe", "NoDangling"], deadlock=False)
+        r = run_tlc("TableLoad", cfg, workers=4, timeout=600)
+        ev.tlc(r, "TableLoad %s ops<=%d" % (k, MO))
+        if not r["ok"]:
+            print("MODEL-FAILURE: TableLoad(%s) violates %s" % (k, r["violated"]))
+            return None
+        write_cfg(cfg, spec="Spec", constants=dict(base, Kind='"%s"' % k, Emit=True), invariants=["EmitOK"], deadlock=False)
+        r = run_tlc("TableLoad", cfg, workers=2, timeout=600)
+        progs[k] = bpbind.parse_emitted(r["out"])
+        if len(progs[k]) < 100:
+            print("SELF-CHECK-FAILED: TableLoad(%s) emitted %d programs" % (k, len(progs[k])))
+            return None
+    for dev, inv in (("FailKeepsPointer", "NoDangling"), ("ReloadSkipsCleanup", "MemorySafe"), ("QueryChecksLoaded", "MemorySafe")):
+        c = dict(base, Kind='"xattr"')
+        c[dev] = not c[dev]
+        write_cfg(cfg, spec="Spec", constants=c, invariants=["MemorySafe", "NoDangling"], deadlock=False)
+        r = run_tlc("TableLoad", cfg, workers=4, timeout=600)
+        ev.tlc(r, "dev TableLoad " + dev)
+        if r["violated"] not in ("MemorySafe", "NoDangling"):
+            print("SELF-CHECK-FAILED: TableLoad deviation %s without counterexample" % dev)
+            return None
+    binp = work + "/replay_tableload"
+    if not build.compile_harness(VERIF + "/harness/replay_tableload.c", binp, variant="asan"):
+        raise RuntimeError("harness build failed")
+    imgs = table_images(work)
+    jobs = [(k, p) for k in kinds for p in progs[k]]
+
+    def do(j):
+        k, p = jobs[j]
+        prog = ",".join(("L" + op[1]) if op[0] == "load" else "Q" for op in p["prog"])
+        cmd = ["timeout", "20", binp, k, prog] + ["%s=%s" % (c, f) for c, f in imgs[k].items()]
+        q = subprocess.run(cmd, capture_output=True, text=True,
+                           env=dict(os.environ, ASAN_OPTIONS="detect_leaks=1:allocator_may_return_null=1:max_allocation_size_mb=512"))
+        return j, q.returncode, q.stdout, q.stderr
+    n, drift, seen = 0, [], set()
+    with ThreadPoolExecutor(16) as ex:
+        for j, rc, out, err in ex.map(do, range(len(jobs))):
+            n += 1
+            k, p = jobs[j]
+            what = None
+            if "ERROR: AddressSanitizer" in err and "allocation-size-too-big" not in err and "out of memory" not in err:
+                what = "memory error"
+            elif "ERROR: LeakSanitizer" in err:
+                what = "leak"
+            elif rc == 124:
+                what = "hang"
+            elif rc != 0:
+                what = "harness exits %d: %s" % (rc, err[-200:])
+            if what:
+                key = "tableload-%s-%s" % (k, what.split()[0])
+                if key not in seen:
+                    seen.add(key)
+                    m = re.search(r"ERROR: AddressSanitizer: ([\w-]+)", err)
+                    rep.violation(key, "%s reader object, operations %s (L<class> = load an image of that class, Q = query, then destroy): %s %s"
+                                  % (k, [o[-1] if o[0] == "load" else "Q" for o in p["prog"]], what, m.group(1) if m else ""), data={"kind": k, "prog": p["prog"], "stderr": err[-1500:]})
+                continue
+            try:
+                ans = json.loads(out)["answers"]
+            except Exception:
+                rep.violation("tableload-%s-noanswer" % k, "%s reader: no answer for %s" % (k, p["prog"]))
+                continue
+            got = ["ok" if a == "ok" else "err" for a in ans]
+            if got != p["answers"]:
+                drift.append((k, p["prog"], got, p["answers"]))
+    # the same images through the tools: the error exit of the loader is followed by the tool's own clean-up
+    if tools:
+        flat = sorted({f for k in imgs for f in imgs[k].values()})
+
+        def obs(f):
+            return f, observe(tools, f, f + ".out")
+        with ThreadPoolExecutor(16) as ex:
+            for f, res in ex.map(obs, flat):
+                n += len(res)
+                for c, o in res.items():
+                    if o not in ("ok", "error"):
+                        rep.violation("tableload-tool-%s-%s" % (c, o.split(":")[0]), "%s on %s (table loader class image): %s" % (c, os.path.basename(f), o), artefact=f)
+    ev.set("table_load_programs_replayed", n)
+    ev.set("table_load_answers_that_differ_from_the_model(spec drift, no alarm)", len(drift))
+    if drift:
+        print("SPEC-DRIFT (no alarm): %d answer sequences of the real table loaders differ from TableLoad.tla, e.g. %s" % (len(drift), json.dumps(drift[0])[:300]))
+    return n
+
+
 def run(tier):
     ev = Evidence(PID, tier, "exploration")
     rep = Reporter(PID, ev)
@@ -283,6 +433,11 @@ def run(tier):
                     rep.violation("reader-%s-%s-bitflip" % (inv, res.split(":")[0]), "%s on a bit-flipped real image (seed %d): %s" % (inv, SEED * 991 + i, res),
                                   artefact=keep, data={"seed": SEED * 991 + i, "invocation": inv})
             os.unlink(p)
+    tn = table_load_stage(work, rep, ev, tier, cfg, tools)
+    if tn is None:
+        ev.write()
+        return 2
+    evaluations += tn
     ev.set("evaluations", evaluations)
     ev.set("distinct_nontrivial", len(outcomes) + nflip)
     ev.set("rule", "structured: every plan with one corrupted field and %s plans with two (of %d), each encoded as an image and given to 9 tool invocations; "
